@@ -142,6 +142,13 @@ def run(pid, tier, t0, which, seed_extra, ctl=True):
                              workers=16, xss="512m", xmx="16g", timeout=3000)
         if not mc["ok"]:
             V.add("spec:MC_Machine:" + str(mc["violated"]), {"trace": tlc.counterexample(mc["out"])})
+        # second alphabet: text, the second batch of elements, modifiers, list literals
+        mcb = tlc.model_check(s, "MC_Machine", cfg="MC_Machine_B" if tier == "quick" else "MC_Machine_B4",
+                              workers=16, xss="512m", xmx="16g", timeout=3000)
+        if not mcb["ok"]:
+            V.add("spec:MC_Machine(B):" + str(mcb["violated"]), {"trace": tlc.counterexample(mcb["out"])})
+        mc["distinct"] += mcb["distinct"]
+        mc["generated"] += mcb["generated"]
         _, cs = cases(tier, rng, ctl)
         seen = set()
         uniq = []
